@@ -48,6 +48,7 @@ def _strip_async(world):
 
     def fix(u):
         u.pop("async", None)
+        u.pop("offload", None)
         for role in ("pre", "post", "snaps"):
             for c in u.get(role) or ():
                 c.pop("style", None)
@@ -86,6 +87,9 @@ def generate(r, tier):
     if r.random() < 0.12:
         return _gen_placement(r)
     aworld = gen.gen_world(r, True, nfuncs=(1, 3), with_class=0.6, forms=True, async_methods=True, mixed=False, subclass=0.35, setattr_invs=True)
+    for u_ in aworld.get("funcs", ()):
+        if u_.get("async") and not u_.get("kwargs") and r.random() < 0.2:
+            u_["offload"] = True  # the async callable is an ``async def`` layer over a plain function
     units = gen.units_of(aworld)
     profile = {
         "p_falsy": r.choice([0.3, 0.5, 0.7]),
@@ -100,6 +104,22 @@ def generate(r, tier):
     }
     atickets = [gen.gen_ticket(r, "a.%d" % i, units, profile) for i in range(r.randint(2, 5))]
     noise = [gen.gen_ticket(r, "z.%d" % i, units, dict(profile, p_mutate=0.0, p_fault=0.0)) for i in range(r.randint(0, 3))]
+    off = {u_["name"] for u_ in aworld.get("funcs", ()) if u_.get("offload")}
+    if off:
+        # the plain function under the async layer cannot await: its body makes no nested calls
+        def prune(td):
+            if td.get("fn") in off and not td.get("obj") and td.get("body"):
+                td["body"].pop("nested", None)
+            for sc in (td.get("sites") or {}).values():
+                for n_ in sc.get("nested") or ():
+                    if isinstance(n_, dict) and "id" in n_:
+                        prune(n_)
+            for n_ in (td.get("body") or {}).get("nested") or ():
+                if isinstance(n_, dict) and "id" in n_:
+                    prune(n_)
+
+        for td_ in atickets + noise:
+            prune(td_)
     return {
         "property": ID,
         "mode": "pair",
